@@ -76,10 +76,13 @@ def plan(rng, n_random):
     return out
 
 
-def execute(jinja2, sc, data):
-    """run one scenario; yields (way, env_index, effective_kind, name, output, fresh_output)"""
+def execute(jinja2, sc, data, api="sync"):
+    """run one scenario; yields (way, env_index, effective_kind, name, output, fresh_output); `api`: see autoesc_terms.APIS"""
+    from harness.gen import autoesc_terms as T
+
+    akw = T.api_env_kw(api)
     loader = make_loader(jinja2, sc["loader"])
-    envs = [jinja2.Environment(loader=loader, autoescape=make_autoescape(jinja2, sc["root"]), cache_size=sc["cache_size"])]
+    envs = [jinja2.Environment(loader=loader, autoescape=make_autoescape(jinja2, sc["root"]), cache_size=sc["cache_size"], **akw)]
     kinds, parent, used, has_child = [sc["root"]], [None], [set()], [False]
     for st in sc["steps"]:
         if st[0] == "overlay":
@@ -105,11 +108,11 @@ def execute(jinja2, sc, data):
 
         def render(env):
             try:
-                return env.get_template(name).render(**data)
+                return T.render_api(env.get_template(name), api, data)
             except Exception as e:  # noqa
                 return f"raised:{type(e).__name__}:{e}"
 
         out = render(envs[i])
-        fresh = render(jinja2.Environment(loader=make_loader(jinja2, sc["loader"]), autoescape=make_autoescape(jinja2, kinds[i])))
+        fresh = render(jinja2.Environment(loader=make_loader(jinja2, sc["loader"]), autoescape=make_autoescape(jinja2, kinds[i]), **akw))
         used[i].add(name)
         yield way, i, kinds[i], name, out, fresh
